@@ -3,7 +3,7 @@
    followed by Print Assumptions.  [collect] is the model of collect_cython written as
    compiled.pyx:102-154 writes it; [UB] is an unchecked read outside the object. *)
 From Coq Require Import List ZArith Bool NArith.
-From Orso Require Import Model.C10 Proofs.C10.
+From Orso Require Import Model.C10 Proofs.C10 Proofs.C10_Frame.
 Import ListNotations.
 
 (* Rectangular tuple rows (every row as wide as the first), any index vector, any limit:
@@ -117,6 +117,70 @@ Theorem C10_df_collect_limit :
   = match limit with None => n | Some l => eff_limit l n end.
 Proof. intros A rows cols limit n. split; [reflexivity|exact (df_limit_eff limit n)]. Qed.
 Print Assumptions C10_df_collect_limit.
+
+(* ---- the DataFrame as an object with state: sequences of calls on one frame ----
+   [frame_init k rows] is DataFrame(rows=<rows held in a list / tuple / deque / one-shot iterator>);
+   [run s ops] the outputs of the calls [ops] made one after the other on that one object. *)
+
+(* History and backing independence: on a frame built from ANY kind of row container, ANY sequence of
+   reading calls (collect with any columns and limit, df[...], a collect of an unknown name, rowcount/len,
+   materialize) returns, call by call, what each call returns on the rows themselves - in particular
+   a collect returns df_collect of the frame's rows whatever was collected (or limited) before. *)
+Theorem C10_frame_history_independent :
+  forall (A : Type) (k : backing) (rows : list (rowobj A)) (ops : list (fop A)),
+  forallb is_read ops = true ->
+  run (frame_init k rows) ops = map (read_out rows) ops.
+Proof. exact frame_history_independent. Qed.
+Print Assumptions C10_frame_history_independent.
+
+(* The frame's rows after any history (appends included, from any state): the rows before followed by
+   the successfully appended rows in order - never dropped, duplicated or reordered - ... *)
+Theorem C10_frame_rows_preserved :
+  forall (A : Type) (s : store A) (ops : list (fop A)),
+  contents (state_after s ops) = contents s ++ appended s ops /\
+  (forallb is_read ops = true -> appended s ops = []).
+Proof.
+  intros A s ops. split; [exact (state_after_contents A ops s)|exact (appended_reads A ops s)].
+Qed.
+Print Assumptions C10_frame_rows_preserved.
+
+(* ... and the reading calls made after that history see exactly those rows. *)
+Theorem C10_frame_any_history :
+  forall (A : Type) (k : backing) (rows : list (rowobj A)) (pre ops : list (fop A)),
+  forallb is_read ops = true ->
+  run (frame_init k rows) (pre ++ ops) =
+  run (frame_init k rows) pre ++ map (read_out (rows ++ appended (frame_init k rows) pre)) ops.
+Proof. exact frame_any_history. Qed.
+Print Assumptions C10_frame_any_history.
+
+(* Tied to the definition: rectangular tuple rows in any container, any reading history, every index in
+   range: the next collect returns result[i][j] = rows[j][cols[i]] for the first limit' rows
+   (limit None = all rows). *)
+Theorem C10_frame_collect_correct :
+  forall (A : Type) (w : nat) (k : backing) (rows : list (list A)) (pre : list (fop A))
+         (cols : list Z) (limit : option Z),
+  rectangular A w rows -> rows <> [] -> forallb is_read pre = true ->
+  (forall c, In c cols -> (0 <= c < Z.of_nat w)%Z) ->
+  exists res,
+    nth_error (run (frame_init k (map RTuple rows)) (pre ++ [OpCollect cols limit])) (length pre)
+      = Some (FCols (Ok res)) /\
+    collect_def rows cols (match limit with None => length rows | Some l => eff_limit l (length rows) end)
+      = Some res.
+Proof. exact frame_collect_correct. Qed.
+Print Assumptions C10_frame_collect_correct.
+
+(* Non-vacuity: a tuple-backed 3x2 frame, a limited collect, then an unlimited one and the row count;
+   an append on the still-lazy tuple raises, after materialisation it succeeds and the next collect sees it. *)
+Example C10_nonvacuous_frame :
+  run (frame_init KTuple (map RTuple [[1; 2]; [3; 4]; [5; 6]]%Z))
+      [OpCollect [1; 0]%Z (Some 1%Z); OpCollect [1; 0]%Z None; OpRowcount]
+  = [FCols (Ok [[2]; [1]]%Z); FCols (Ok [[2; 4; 6]; [1; 3; 5]]%Z); FCount 3] /\
+  run (frame_init KTuple (map RTuple [[1; 2]; [3; 4]]%Z))
+      [OpAppend [7; 8]%Z; OpRowcount; OpAppend [9; 10]%Z; OpGetitem [1%Z]]
+  = [FAttributeError; FCount 2; FNone; FCols (Ok [[2; 4; 10]]%Z)] /\
+  run (frame_init KDeque (map RTuple [[1; 2]]%Z)) [OpAppend [7; 8]%Z; OpGetitem [0%Z]]
+  = [FNone; FCols (Ok [[1; 7]]%Z)].
+Proof. repeat split; reflexivity. Qed.
 
 (* extract_dict_columns, all inputs: one output per requested field, in order; each is the value the
    dictionary lookup finds, else None. *)
